@@ -1,9 +1,17 @@
 #!/usr/bin/env python3
 """Translator (T) for C19: primitiv/core/spinlock.h -> coq/Gen/SpinGen.v.
 
-Reads the clang JSON AST of Spinlock and RecursiveSpinlock (hooks OFF) and writes every
+Reads the clang JSON AST of Spinlock and RecursiveSpinlock and writes every
 method body (try_lock, lock, unlock) as a term of the instruction language of
-coq/Spin/Lang.v, memory orders included.  Normalisation: comments/whitespace do not reach the
+coq/Spin/Lang.v, memory orders included.  Gen/SpinGen.v holds the plain variant (hooks OFF: what
+users build).  Gen/SpinDecls.v holds (a) the variant every build of /verif compiles
+(-DPRIMITIV_VERIF_HOOKS) with the calls of the scheduling hook erased -- obligation
+gen_hooks_agree (Spin/GenMatchesDecls.v): it is the same program --, and (b) for both variants the
+DECLARATIONS of the two classes (bases, every field with its type and initialiser, every declared
+member function, constructor, ... with its type; for the hooks variant also HookedFlag and its two
+forwarding bodies) -- obligations gen_decls_reviewed / gen_decls_hooks_reviewed: they are the
+reviewed ones (a std::uint8_t lock_count_, an extra method touching the fields, another initial
+value are all outside what the theorems speak about).  Normalisation: comments/whitespace do not reach the
 AST; null statements, nested compound statements, parentheses, implicit casts, temporaries and
 copy constructions are dropped; locals initialised with std::this_thread::get_id() or
 std::thread::id() are replaced by the value they hold (so renaming them changes nothing).
@@ -16,6 +24,7 @@ import sys
 
 ROOT = "/verif"
 OUT = os.path.join(ROOT, "coq", "Gen", "SpinGen.v")
+OUT_DECLS = os.path.join(ROOT, "coq", "Gen", "SpinDecls.v")
 
 ORDERS = {"memory_order_relaxed": "Relaxed", "memory_order_consume": "Consume",
           "memory_order_acquire": "Acquire", "memory_order_release": "Release",
@@ -32,10 +41,10 @@ def repo():
     return os.environ.get("PV_REPO", "/repo")
 
 
-def dump_ast(header):
+def dump_ast(header, hooks=False, filt="Spinlock"):
     inc = [a for a in ("-I" + repo(), "-I" + os.path.join(ROOT, "_work", "build-plain")) if os.path.isdir(a[2:])]
-    cmd = ["clang++", "-x", "c++", "-std=c++11", "-fsyntax-only", "-UPRIMITIV_VERIF_HOOKS"] + inc + \
-          ["-Xclang", "-ast-dump=json", "-Xclang", "-ast-dump-filter=Spinlock", header]
+    cmd = ["clang++", "-x", "c++", "-std=c++11", "-fsyntax-only", "-DPRIMITIV_VERIF_HOOKS" if hooks else "-UPRIMITIV_VERIF_HOOKS"] + inc + \
+          ["-Xclang", "-ast-dump=json", "-Xclang", "-ast-dump-filter=" + filt, header]
     p = subprocess.run(cmd, stdout=subprocess.PIPE, stderr=subprocess.PIPE, text=True, timeout=300)
     if p.returncode != 0:
         raise TranslateError("clang failed on %s:\n%s" % (header, p.stderr[-2000:]))
@@ -99,10 +108,95 @@ def order_of(args, what):
     raise TranslateError("memory order of %s is not a memory_order_* constant" % what)
 
 
+COMMENTS = ("FullComment", "ParagraphComment", "TextComment", "BlockCommandComment")
+
+
+def sx(e):
+    """canonical text of an expression / statement (value-preserving wrappers dropped): used for
+    initialisers and for the two forwarding bodies of HookedFlag"""
+    e = strip(e)
+    bits = [e.get("kind", "?")]
+    for key in ("name", "opcode", "value", "castKind"):
+        if key in e:
+            bits.append(str(e[key]))
+    if e.get("isPostfix"):
+        bits.append("postfix")
+    if e.get("referencedDecl"):
+        bits.append(str(e["referencedDecl"].get("name")))
+    if e.get("kind") in ("CXXConstructExpr", "CXXTemporaryObjectExpr", "InitListExpr", "CXXScalarValueInitExpr"):
+        bits.append("<" + qual(e) + ">")
+    return "(" + " ".join(bits + [sx(c) for c in e.get("inner", []) if c.get("kind") not in COMMENTS]) + ")"
+
+
+def sched_call(s):
+    """`::primitiv::verif::sched_point(&ready_ | this, <literal>)`: the scheduling hook; returns the point or None"""
+    e = strip(s)
+    if e.get("kind") != "CallExpr" or len(e.get("inner", [])) != 3:
+        return None
+    f = strip(e["inner"][0])
+    if f.get("kind") != "DeclRefExpr" or (f.get("referencedDecl") or {}).get("name") != "sched_point":
+        return None
+    a, n = strip(e["inner"][1]), strip(e["inner"][2])
+    while a.get("kind") in ("ImplicitCastExpr", "CStyleCastExpr") and len(a.get("inner", [])) == 1:
+        a = strip(a["inner"][0])
+    addr_ok = a.get("kind") == "CXXThisExpr" or (a.get("kind") == "UnaryOperator" and a.get("opcode") == "&"
+                                                 and field_of(a["inner"][0]) == FLAG)
+    if not addr_ok or n.get("kind") != "IntegerLiteral":
+        raise TranslateError("scheduling hook called with something else than (&ready_ | this, <literal>)")
+    return int(n["value"])
+
+
+def type_of(d):
+    t = d.get("type") or {}
+    q, dq = t.get("qualType", ""), t.get("desugaredQualType")
+    return q if not dq or dq == q else "%s = %s" % (q, dq)
+
+
+def class_decls(c, cname):
+    """one line per base, field (type, initialiser) and declared member of the class"""
+    out = []
+    for b in c.get("bases", []):
+        out.append("%s base %s%s %s" % (cname, b.get("access", "?"), " virtual" if b.get("isVirtual") else "", (b.get("type") or {}).get("qualType", "?")))
+    for m in c.get("inner", []):
+        k = m.get("kind")
+        if m.get("isImplicit") or k in ("AccessSpecDecl",) + COMMENTS:
+            continue
+        if k == "FieldDecl":
+            init = [x for x in m.get("inner", []) if x.get("kind") not in COMMENTS]
+            out.append("%s field %s : %s%s%s = %s" % (cname, m.get("name"), type_of(m), " mutable" if m.get("mutable") else "",
+                                                    " bitfield" if m.get("isBitfield") else "", sx(init[0]) if init else "none"))
+        else:
+            flags = "".join(" " + f for f, on in (("static", m.get("storageClass") == "static"), ("virtual", m.get("virtual")),
+                                                  ("deleted", m.get("explicitlyDeleted")), ("defaulted", m.get("explicitlyDefaulted"))) if on)
+            out.append("%s %s %s : %s%s" % (cname, k, m.get("name", "?"), type_of(m), flags))
+    return out
+
+
+def hooked_flag_decls(docs):
+    """verif::HookedFlag (hooks-on builds): declarations + the two bodies with the hook calls erased"""
+    c = find_class(docs, "HookedFlag")
+    out = class_decls(c, "HookedFlag")
+    for m in c.get("inner", []):
+        if m.get("kind") == "CXXMethodDecl" and not m.get("isImplicit"):
+            body = [x for x in m.get("inner", []) if x.get("kind") == "CompoundStmt"]
+            if not body:
+                raise TranslateError("HookedFlag::%s has no inline body" % m.get("name"))
+            pts, rest = [], []
+            for st in body[0].get("inner", []):
+                p = sched_call(st)
+                if p is None:
+                    rest.append(sx(st))
+                else:
+                    pts.append(p)
+            out.append("HookedFlag::%s hook points [%s] body %s" % (m.get("name"), " ".join(map(str, pts)), " ".join(rest)))
+    return out
+
+
 class Body:
     def __init__(self, cname):
         self.cname = cname
         self.env = {}      # local variable id -> "Self" | "Nobody"
+        self.points = []   # scheduling-hook calls erased from the body (hooks-on variant)
 
     # ---- thread id values
     def tidv(self, e):
@@ -215,6 +309,10 @@ class Body:
         if k == "ReturnStmt":
             inner = s.get("inner", [])
             return ["Ret None"] if not inner else ["Ret (Some (%s))" % self.expr(inner[0])]
+        p = sched_call(s)
+        if p is not None:      # a scheduling point: no access to the lock's state
+            self.points.append(p)
+            return []
         return [self.stmt_expr(s)]
 
     def stmt_expr(self, s):
@@ -256,15 +354,22 @@ def lst(items):
     return "[" + "; ".join(items) + "]"
 
 
-def translate_class(docs, cname):
+def translate_class(docs, cname, decls=None):
     c = find_class(docs, cname)
     bodies = {}
+    if decls is not None:
+        decls += class_decls(c, cname)
     for m in c.get("inner", []):
         if m.get("kind") == "CXXMethodDecl" and m.get("name") in METHS and not m.get("isImplicit"):
             body = [x for x in m.get("inner", []) if x.get("kind") == "CompoundStmt"]
             if not body:
                 raise TranslateError("%s::%s has no inline body" % (cname, m["name"]))
-            bodies[m["name"]] = Body("%s::%s" % (cname, m["name"])).block(body[0])
+            if m["name"] in bodies:
+                raise TranslateError("%s::%s is overloaded" % (cname, m["name"]))
+            b = Body("%s::%s" % (cname, m["name"]))
+            bodies[m["name"]] = b.block(body[0])
+            if decls is not None and b.points:
+                decls.append("%s::%s hook points [%s]" % (cname, m["name"], " ".join(map(str, b.points))))
     for n in METHS:
         if n not in bodies:
             raise TranslateError("%s::%s not found" % (cname, n))
@@ -290,14 +395,56 @@ def generate():
             % (render(sp), render(rs)))
 
 
-def main():
-    text = generate()
-    os.makedirs(os.path.dirname(OUT), exist_ok=True)
-    old = open(OUT).read() if os.path.exists(OUT) else None
+def coq_strings(items):
+    return "[" + ";\n   ".join('"%s"' % i.replace('"', '""') for i in items) + "]"
+
+
+def generate_decls():
+    """Gen/SpinDecls.v: declarations of both variants + the program of the hooks-on variant"""
+    header = os.path.join(repo(), "primitiv", "core", "spinlock.h")
+    off, on = [], []
+    docs = dump_ast(header, hooks=False)
+    translate_class(docs, "Spinlock", off)
+    translate_class(docs, "RecursiveSpinlock", off)
+    docs = dump_ast(header, hooks=True)
+    sp = translate_class(docs, "Spinlock", on)
+    rs = translate_class(docs, "RecursiveSpinlock", on)
+    on += hooked_flag_decls(dump_ast(header, hooks=True, filt="HookedFlag"))
+    return ("(* GENERATED by translate/gen_spin.py from primitiv/core/spinlock.h -- do not edit.\n"
+            "   Regenerated on every run of ./check C19.  decls: plain build; decls_hooks / prog_hooks: the\n"
+            "   -DPRIMITIV_VERIF_HOOKS build every harness links (calls of the scheduling hook erased). *)\n"
+            "From Coq Require Import List String.\nFrom PV Require Import Spin.Lang.\nImport ListNotations.\nLocal Open Scope string_scope.\n\n"
+            "Definition decls : list string :=\n  %s.\n\nDefinition decls_hooks : list string :=\n  %s.\n\n"
+            "Definition gen_spin_hooks : cls :=\n  %s.\n\nDefinition gen_rspin_hooks : cls :=\n  %s.\n\n"
+            "Definition prog_hooks : Lang.prog := {| spin_cls := gen_spin_hooks; rspin_cls := gen_rspin_hooks |}.\n"
+            % (coq_strings(off), coq_strings(on), render(sp), render(rs)))
+
+
+def write_if_changed(path, text):
+    os.makedirs(os.path.dirname(path), exist_ok=True)
+    old = open(path).read() if os.path.exists(path) else None
     if old != text:      # keep the timestamp when nothing changed (no needless recompilation)
-        with open(OUT + ".tmp", "w") as f:
+        tmp = "%s.tmp.%d" % (path, os.getpid())
+        with open(tmp, "w") as f:
             f.write(text)
-        os.replace(OUT + ".tmp", OUT)
+        os.replace(tmp, path)
+
+
+UNTRANSLATABLE_DECLS = ("(* GENERATED by translate/gen_spin.py -- the declarations / the hooks-on variant could not be read: %s *)\n"
+                        "From Coq Require Import List String.\nFrom PV Require Import Spin.Lang.\nImport ListNotations.\n\n"
+                        "Definition decls : list string := [].\nDefinition decls_hooks : list string := [].\n"
+                        "Definition prog_hooks : Lang.prog := {| spin_cls := {| try_lock_body := []; lock_body := []; unlock_body := [] |};\n"
+                        "                                        rspin_cls := {| try_lock_body := []; lock_body := []; unlock_body := [] |} |}.\n")
+
+
+def main():
+    write_if_changed(OUT, generate())
+    try:
+        write_if_changed(OUT_DECLS, generate_decls())
+    except TranslateError as e:
+        # never leave a stale file behind: the obligations of Spin/GenMatchesDecls.v then fail
+        write_if_changed(OUT_DECLS, UNTRANSLATABLE_DECLS % str(e).replace("*)", "* )")[:500])
+        raise
     return OUT
 
 
